@@ -11,22 +11,25 @@ RULE = ("file of the conforming/violating families (incl. comments inside functi
         "non-trivial = replacement contains one of ; { } ( ) # \" ' or a keyword and differs from the original; distinct by SHA-1 of the pair")
 
 MATERIAL = [";", "{", "}", "(", ")", "[", "]", "+", "-", "*", "/", "%", "=", "<", ">", "!", "&", "|", "^", "~", ",", ".", ":", "#", "?",
-            "0", "1", "9", "a", "x", "_", " ", "if", "else", "while", "return", "int", "for", "struct", "<:", "%>", "//", "/*"]
+            "0", "1", "9", "a", "x", "_", " ", "if", "else", "while", "return", "int", "for", "struct", "<:", "%>", "//", "/*",
+            "NULL", "A", "MAX", "T_", "INT", "Z9"]
 
 
 def filler(d, width, forbid):
     out = ""
     guard = 0
+    style = d.int(0, 5)   # 0: upper-case letters only, 1: no letters at all, else: anything
+    pool = [m for m in MATERIAL if not any(c.islower() for c in m)] if style == 0 else [m for m in MATERIAL if not any(c.isalpha() for c in m)] if style == 1 else MATERIAL
     while len(out) < width and guard < 400:
         guard += 1
-        piece = d.choice(MATERIAL)
+        piece = d.choice(pool)
         if len(out) + len(piece) > width:
-            piece = d.choice("abx;(){}=+ ")
+            piece = d.choice("ABX;(){}=+ " if style == 0 else ";(){}=+ 19" if style == 1 else "abx;(){}=+ ")
         cand = out + piece
         if any(f in cand for f in forbid):
             continue
         out = cand
-    return out.ljust(width, "x")[:width]
+    return out.ljust(width, "X" if style == 0 else "1" if style == 1 else "x")[:width]
 
 
 def spans(p):
@@ -135,7 +138,9 @@ def shard(seed, n):
             camp.count("span:" + kind)
         if len(a) != len(b):
             raise core.HarnessError("replacement changed the text length: %r" % (chosen,))
-        compare(camp, p.name, a, b, {"variant": p.variant, "replaced": chosen}, relation="C17")
+        kinds = "+".join(sorted({k for k, _, _ in chosen}))
+        di = any(any(g in new for g in ("<:", ":>", "<%", "%>", "%:")) for k, _, new in chosen if k in ("block-comment", "block-interior", "line-comment"))
+        compare(camp, p.name, a, b, {"variant": p.variant, "replaced": chosen}, relation="C17|%s%s" % (kinds, "|digraph-in-comment" if di else ""))
         if len(camp.samples) < 4 and camp.evaluations % 29 == 1:
             camp.samples.append({"variant": p.variant, "replaced": chosen})
 
